@@ -62,7 +62,7 @@ def shape_key(case, results):
             return "trk-" + r.req.split()[1] + ("-gallery-full" if "gallery-full" in r.flags else "")
     return "none"
 
-SOURCE_TIE = "Source-level tie by proof (Tie/Attr, Tie/Gallery, Tie/VMetric, Tie/Record, Props/C13s): the gallery maintenance and the collect gate of VisualMetric::optimize, the bounded histories and the record conversions, regenerated from the source, equal the model's; bound, count and eviction are restated for the generated functions."
+SOURCE_TIE = "Source-level tie by proof (Tie/Attr, Tie/Gallery, Tie/VMetric, Tie/Record, Props/C13s): the gallery maintenance and the collect gate of VisualMetric::optimize, the bounded histories and the record conversions, regenerated from the source, equal the model's; bound, count and eviction are restated for the generated functions. Also by proof (Tie/OptimizeV): VisualMetric::optimize as a whole (Kalman step, the three bounded histories, the collect gate on merge, the gallery step and the recount, in the order the source has them)."
 LEVEL_TEXT = LEVEL_TEXT + " " + SOURCE_TIE
 TRUSTED_BASE = TRUSTED_BASE + ["translator/kernels.py + rustexpr.py (reader of the Rust subset, per-function tables) for the functions named in SOURCE_TIE; generated definitions are proof obligations (Tie modules) on every run"]
 TECHNIQUE = TECHNIQUE + "; model regenerated from the source by a translator for the functions of SOURCE_TIE, tied by proof"
